@@ -1,6 +1,7 @@
 import IsoMdl.Props.C03
 import IsoMdl.Lemmas.Report
 import IsoMdl.Model.ResponseFacts
+import IsoMdl.Model.ReportWire
 /-
 C04 — Elements reported as issuer-authenticated are bound to the signed MSO.
 Holds since the `fix:` commit that added `issuer_data_authentication` (ISO 18013-5 9.1.2.4 digest
@@ -157,6 +158,107 @@ example : renderReport (report [(coreNs, [([98], .text [65]), ([97], .tag 1004 (
     "6f72672e69736f2e31383031332e352e31={61:s32,62:{6b:n7},63:[n1,n2]}".toList := by decide +kernel
 
 end Report
+
+section EndToEnd
+open IsoMdl.Report IsoMdl.ResponseFacts
+
+theorem mem_itemsOf : ∀ (l : List Cbor) (r : List (Bytes × Cbor)), itemsOf l = some r → ∀ x ∈ r, ∃ it ∈ l, itemOf it = some x
+  | [], r, h, x, hx => by simp [itemsOf] at h; subst h; cases hx
+  | it :: rest, r, h, x, hx => by
+    simp only [itemsOf] at h
+    cases hi : itemOf it with
+    | none => simp [hi] at h
+    | some y =>
+      cases hr : itemsOf rest with
+      | none => simp [hi, hr] at h
+      | some ys =>
+        simp only [hi, hr, Option.some.injEq] at h
+        subst h
+        rcases List.mem_cons.mp hx with rfl | hx'
+        · exact ⟨it, by simp, hi⟩
+        · obtain ⟨it', hm, he⟩ := mem_itemsOf rest ys hr x hx'
+          exact ⟨it', List.mem_cons_of_mem _ hm, he⟩
+
+theorem mem_namespaceEntries : ∀ (m : List (Cbor × Cbor)) (r : List (Bytes × List (Bytes × Cbor))), namespaceEntries m = some r →
+    ∀ ns items, (ns, items) ∈ r → ∃ itemsC, (Cbor.text ns, Cbor.array itemsC) ∈ m ∧ itemsOf itemsC = some items
+  | [], r, h, ns, items, hx => by simp [namespaceEntries] at h; subst h; cases hx
+  | (k, v) :: rest, r, h, ns, items, hx => by
+    simp only [namespaceEntries] at h
+    split at h
+    · rename_i ns' itemsC r' hr'
+      cases hi : itemsOf itemsC with
+      | none => simp [hi] at h
+      | some its =>
+        simp only [hi, Option.map_some, Option.some.injEq] at h
+        subst h
+        rcases List.mem_cons.mp hx with he | hx'
+        · cases he
+          exact ⟨itemsC, by simp, hi⟩
+        · obtain ⟨c, hm, he⟩ := mem_namespaceEntries rest r' hr' ns items hx'
+          exact ⟨c, List.mem_cons_of_mem _ hm, he⟩
+    · cases h
+
+theorem lookupNs_mem : ∀ (l : List (Bytes × List (Bytes × Cbor))) (ns : Bytes) (items : List (Bytes × Cbor)),
+    lookupNs ns l = some items → (ns, items) ∈ l
+  | [], _, _, h => by simp [lookupNs] at h
+  | (n, its) :: rest, ns, items, h => by
+    simp only [lookupNs] at h
+    split at h
+    · rename_i he
+      have : n = ns := by simpa using he
+      cases h; subst this; simp
+    · exact List.mem_cons_of_mem _ (lookupNs_mem rest ns items h)
+
+/-- END TO END, FROM THE WIRE: take the mDL document as sent.  If the model's digest check accepts it
+against an MSO (`digestsMatch`, the fact that issuer-data authentication establishes), then EVERY
+element value the reader reports is the JSON form of the `elementValue` of a tag-24 item of that
+namespace, carrying that identifier, whose digest - over the item exactly as sent, under the MSO's
+algorithm - is the MSO's valueDigests entry for its namespace and digestID.  Reported data is
+signed data. -/
+theorem C04_reported_value_is_signed (doc mso is : Cbor) (m : List (Cbor × Cbor))
+    (nss : List (Bytes × List (Bytes × Cbor))) (ns : Bytes) (obj : List (Bytes × RJson)) (id : Bytes) (j : RJson)
+    (hd : digestsMatch doc mso = true)
+    (his : mget doc (ResponseFacts.tx "issuerSigned") = some is) (hns : mget is (ResponseFacts.tx "nameSpaces") = some (.map m))
+    (hx : namespacesOf (.map m) = some nss) (hr : (ns, obj) ∈ report nss) (hj : (id, j) ∈ obj) :
+    ∃ itemsC it b iv v did vdm want,
+      (Cbor.text ns, Cbor.array itemsC) ∈ m ∧ it ∈ itemsC ∧ it = .tag 24 (.bytes b) ∧ decodeValue b = some iv ∧
+      mget iv (ResponseFacts.tx "elementIdentifier") = some (.text id) ∧ mget iv (ResponseFacts.tx "elementValue") = some v ∧
+      reportValue v = some j ∧
+      mget iv (ResponseFacts.tx "digestID") = some did ∧
+      ((mget mso (ResponseFacts.tx "valueDigests")).bind fun vd => mget vd (.text ns)) = some vdm ∧ mget vdm did = some (.bytes want) ∧
+      want = hashWith ((mget mso (ResponseFacts.tx "digestAlgorithm")).getD (.simple 22)) (Cbor.enc it) := by
+  obtain ⟨_, items, v, hl, hv, hrv⟩ := C04_reported_is_disclosed_item nss ns obj id j hr hj
+  -- the namespace and the item as sent
+  simp only [namespacesOf] at hx
+  cases he : namespaceEntries m with
+  | none => simp [he] at hx
+  | some r =>
+    simp only [he, Option.map_some, Option.some.injEq] at hx
+    have hmem : (ns, items) ∈ r := by
+      have := lookupNs_mem nss ns items hl
+      rw [← hx] at this
+      exact List.mem_reverse.mp this
+    obtain ⟨itemsC, hm, hio⟩ := mem_namespaceEntries m r he ns items hmem
+    obtain ⟨it, hit, hitem⟩ := mem_itemsOf itemsC items hio (id, v) hv
+    -- the digest of that item
+    obtain ⟨b, iv, did, vdm, want, hb, hdec, hdid, hvd, hw, hwant⟩ :=
+      C04_wire_digest_check_sound doc mso is m (.text ns) itemsC it hd his hns hm hit
+    subst hb
+    simp only [itemOf, hdec] at hitem
+    cases hid : mget iv (ResponseFacts.tx "elementIdentifier") with
+    | none => simp [hid] at hitem
+    | some idc =>
+      cases hev : mget iv (ResponseFacts.tx "elementValue") with
+      | none => cases idc <;> simp [hid, hev] at hitem
+      | some v' =>
+        cases idc with
+        | text idb =>
+          simp only [hid, hev, Option.some.injEq, Prod.mk.injEq] at hitem
+          obtain ⟨rfl, rfl⟩ := hitem
+          exact ⟨itemsC, _, b, iv, v', did, vdm, want, hm, hit, rfl, hdec, hid, hev, hrv, hdid, hvd, hw, hwant⟩
+        | _ => simp [hid, hev] at hitem
+
+end EndToEnd
 
 /-- non-vacuity: the former counterexamples are now Invalid with an issuer-authentication error -/
 example : (handleResponse { honest with digestsMatch := false }) = ⟨.invalid, .valid, [.issuerAuth], true⟩ := by decide
